@@ -371,8 +371,14 @@ def rep(rng, K, P, force=None):
     """a representative of affine P: (label, text)"""
     c = rng.random() if force is None else REP_CLASSES[force]
     if P is None:
-        if c < 0.4:
+        if c < 0.3:
             return 'O:canonical', jac(K, None)
+        if c < 0.4:
+            # identities with a vanishing coordinate: (0,0,0) is what an in-place rescaling by 1/z := 0 leaves behind;
+            # cross-multiplied comparisons are trivially true against it
+            k = rng.randrange(3)
+            x, y = (K.zero, K.zero) if k == 0 else ((K.rand(rng), K.zero) if k == 1 else (K.zero, K.rand(rng)))
+            return 'O:(0,0,0)|(x,0,0)|(0,y,0)', jac_raw(K, x, y, K.zero)
         if c < 0.7:
             # what P - P leaves behind: (rho^2, -rho^3, 0)
             rho = K.rand(rng)
